@@ -9,6 +9,7 @@ Request.run, current_runtime), plus the property's own oracle: an independent Py
     implementation  vs  Python stack oracle         -> violations
     Python stack oracle vs Gallina stack spec       -> correspondence_mismatches (oracle == theorem's spec)
 """
+import json
 import multiprocessing
 import os
 import threading
@@ -24,6 +25,20 @@ TYPES = (1, 2)
 TAGS = (1, 2, 3)
 FALSY = 0              # a callable whose bool() is False (Model/Runtime.v falsy_tag); must serve like any other
 NVARS = 4
+
+# The LIBRARY's own request types (scenarios with "lib": True).  They are ordinary request types whose
+# defaults were registered when labrea was imported (tag LIB_BUILTIN); the library's own derivers
+# labrea.cache.disabled() / labrea.logging.disabled() are `runtime.handle(...)` calls that override
+# them with the library's disabled handlers (tag LIB_DISABLED).  Which handler served is observed by
+# what happens to a probe cache / a probe logger (touched = builtin, untouched = disabled); a user
+# handler installed for such a type answers with its own tag like for every other type.
+LIB_TYPES = (3, 4, 5, 6)          # CacheSetRequest, CacheGetRequest, CacheExistsRequest, LogRequest
+LIB_BUILTIN = 7
+LIB_DISABLED = 8
+LIB_PRE = [[t, LIB_BUILTIN] for t in LIB_TYPES]
+LIB_DERIVERS = {"cache": [[3, LIB_DISABLED], [4, LIB_DISABLED], [5, LIB_DISABLED]],
+                "logging": [[6, LIB_DISABLED]]}
+PROBE_LOGGER = "verif.c14.probe"
 
 
 # ----------------------------------------------------------------------------- implementation side
@@ -53,6 +68,71 @@ def _exec_impl(sc):
     import labrea.runtime as R
 
     types = {t: type(f"VerifReq{t}", (R.Request,), {}) for t in TYPES}   # fresh per scenario
+    if sc.get("lib"):
+        import logging as pylogging
+
+        import labrea
+        import labrea.cache as C
+        import labrea.logging as L
+        types.update({3: C.CacheSetRequest, 4: C.CacheGetRequest, 5: C.CacheExistsRequest, 6: L.LogRequest})
+        probe_ev = labrea.Value(0)
+
+        class Probe(C.Cache):
+            def __init__(self):
+                self.calls = []
+
+            def get(self, evaluatable, options):
+                self.calls.append("get")
+                return "stored"
+
+            def set(self, evaluatable, options, value):
+                self.calls.append("set")
+
+            def exists(self, evaluatable, options):
+                self.calls.append("exists")
+                return True
+
+        class Collect(pylogging.Handler):
+            def __init__(self):
+                super().__init__()
+                self.records = []
+
+            def emit(self, record):
+                self.records.append(record)
+
+        def run_lib(t):
+            """which handler serves a request of library type t: a user handler answers its tag (an int);
+            the builtin default touches the probe backend / probe logger; the disabled handler does not"""
+            probe = Probe()
+            touched = lambda: bool(probe.calls)     # noqa: E731
+            if t == 6:
+                logger = pylogging.getLogger(PROBE_LOGGER)
+                col = Collect()
+                logger.addHandler(col)
+                old = (logger.level, logger.propagate)
+                logger.setLevel(pylogging.DEBUG)
+                logger.propagate = False
+                touched = lambda: bool(col.records)     # noqa: E731
+            try:
+                try:
+                    if t == 3:
+                        res = C.CacheSetRequest(probe_ev, {}, "val", probe).run()
+                    elif t == 4:
+                        res = C.CacheGetRequest(probe_ev, {}, probe).run()
+                    elif t == 5:
+                        res = C.CacheExistsRequest(probe_ev, {}, probe).run()
+                    else:
+                        res = L.LogRequest(pylogging.INFO, PROBE_LOGGER, "probe", {}).run()
+                except C.CacheGetFailure:
+                    res = None
+                if type(res) is int:
+                    return res
+                return LIB_BUILTIN if touched() else LIB_DISABLED
+            finally:
+                if t == 6:
+                    logger.removeHandler(col)
+                    logger.setLevel(old[0])
+                    logger.propagate = old[1]
 
     def mk(h):
         if h == FALSY:
@@ -127,11 +207,38 @@ def _exec_impl(sc):
             return "done" if R.handle_by_default(types[op[1]], fn) is None else "notnone"
         if k == "run":
             try:
+                if op[1] in LIB_TYPES:
+                    return f"h{run_lib(op[1])}"
                 return f"h{types[op[1]]().run()}"
             except Exception as e:  # noqa: BLE001
                 if hasattr(e, "verif_tag"):       # the exception of the (raising) handler that served
                     return f"h{e.verif_tag}"
                 raise
+        if k == "lib":
+            # the library's own derivers: runtimes derived (with handle()) from the CURRENT runtime
+            r = C.disabled() if op[2] == "cache" else L.disabled()
+            s = aliases(r)
+            env[op[1]] = r
+            return s
+        if k in ("inherit_run", "thread_run"):
+            # inherit_run: a helper thread adopts this thread's runtime (labrea.runtime.inherit) and asks there;
+            # thread_run: a brand-new helper thread (it has entered nothing, inherited nothing) asks
+            parent = threading.current_thread()
+            box = {}
+
+            def child():
+                try:
+                    if k == "inherit_run":
+                        R.inherit(parent)
+                    box["out"] = simple(["run", op[1]])
+                except TypeError:
+                    box["out"] = "TypeError"
+                except BaseException as e:  # noqa: BLE001
+                    box["out"] = f"exc:{type(e).__name__}"
+            th = threading.Thread(target=child)
+            th.start()
+            th.join()
+            return box["out"]
         raise AssertionError(op)
 
     def block(i, top=False):
@@ -239,7 +346,7 @@ class StackOracle:
 
 
 def run_oracle(sc):
-    o = StackOracle(bool(sc.get("existing")), [tuple(p) for p in sc.get("pre", [])])
+    o = StackOracle(bool(sc.get("existing")), [tuple(p) for p in scenario_pre(sc)])
     env, out = {}, []
 
     def aliases(r):
@@ -288,9 +395,35 @@ def run_oracle(sc):
                 out.append(f"h{o.run(op[1])}")
             except TypeError:
                 out.append("TypeError")
+        elif k == "lib":
+            # labrea.cache.disabled() / labrea.logging.disabled(): "runtimes derived via handle()" (property
+            # anchors) -- from the runtime that is current at THIS call -- overriding the library's own types
+            r = o.derive(None, dict(map(tuple, LIB_DERIVERS[op[2]])))
+            out.append(aliases(r))
+            env[op[1]] = r
+        elif k == "thread_run":
+            # a thread that entered nothing is served by a runtime of its own, created on first use: the defaults of now
+            held = o.new({}).held
+            out.append(f"h{held[op[1]]}" if op[1] in held else "TypeError")
+        elif k == "inherit_run":
+            # the helper thread adopts this thread's current runtime if it has one, else gets a runtime of
+            # its own (this thread still has none afterwards)
+            try:
+                if o.stack or o.base is not None:
+                    out.append(f"h{o.run(op[1])}")
+                else:
+                    held = o.new({}).held
+                    out.append(f"h{held[op[1]]}" if op[1] in held else "TypeError")
+            except TypeError:
+                out.append("TypeError")
         else:
             raise AssertionError(op)
     return ",".join(out)
+
+
+def scenario_pre(sc):
+    """defaults registered before the thread starts (library types: registered at import)"""
+    return list(sc.get("pre", [])) + (LIB_PRE if sc.get("lib") else [])
 
 
 # ----------------------------------------------------------------------------- Coq rendering
@@ -323,6 +456,12 @@ def coq_op(op):
         return f"PDefault {op[1]} {op[2]}"
     if k == "run":
         return f"PRun {op[1]}"
+    if k == "lib":           # = labrea.runtime.handle({library types: disabled handlers})
+        return f"PHandle {op[1]} {coq_table(LIB_DERIVERS[op[2]])}"
+    if k == "thread_run":
+        raise ValueError("thread_run is outside Model/Runtime.v (one thread): oracle only")
+    if k == "inherit_run":   # generated only where the thread has a runtime: the helper thread is served by it
+        return f"PRun {op[1]}"
     raise AssertionError(op)
 
 
@@ -332,18 +471,18 @@ def split_model(line):
 
 
 def coq_scenario(sc, fn="observe"):
-    return (f"{fn} {'true' if sc.get('existing') else 'false'} {coq_table(sc.get('pre', []))} "
+    return (f"{fn} {'true' if sc.get('existing') else 'false'} {coq_table(scenario_pre(sc))} "
             f"[" + "; ".join(coq_op(op) for op in sc["prog"]) + "]")
 
 
 # ----------------------------------------------------------------------------- generators
 
-def audit_suffix(bound):
-    """enter every still-named runtime once more and ask both request types; then ask outside"""
+def audit_suffix(bound, types=TYPES):
+    """enter every still-named runtime once more and ask every request type; then ask outside"""
     out = []
     for v in sorted(bound):
-        out += [["enter", v], ["run", 1], ["run", 2], ["exit"]]
-    out += [["run", 1], ["run", 2], ["cur", NVARS]]
+        out += [["enter", v]] + [["run", t] for t in types] + [["exit"]]
+    out += [["run", t] for t in types] + [["cur", NVARS]]
     return out
 
 
@@ -405,6 +544,154 @@ def gen_random(rng, maxlen, tags=TAGS):
         prog.append([rng.choice(["exit", "exitexc"])])
     prog += audit_suffix(bound)
     return {"existing": existing, "pre": pre, "prog": prog}
+
+
+def gen_lib_random(rng, maxlen, tags=TAGS, helper_threads=False):
+    """gen_random over the user types AND the library's own request types, with the library-provided
+    derivers (labrea.cache.disabled(), labrea.logging.disabled()) and labrea.runtime.inherit next to
+    Runtime() / runtime.handle / Runtime.handle.  The thread always has a runtime (inherit_run is
+    rendered as a plain request for the model).  No default is ever registered for a library type."""
+    alltypes = TYPES + LIB_TYPES
+    pre = []
+    if rng.random() < 0.3:
+        pre = [[t, rng.choice(tags)] for t in TYPES if rng.random() < 0.6]
+    n = rng.randint(3, maxlen)
+    prog, bound, active = [], set(), []
+
+    def ov():
+        r = rng.random()
+        k = 1 if r < 0.6 else (2 if r < 0.85 else (3 if r < 0.92 else 0))
+        ts = rng.sample(alltypes, k)
+        return [[t, rng.choice(tags)] for t in ts]
+    while len(prog) < n:
+        r = rng.random()
+        if r < 0.06:
+            v = rng.randrange(NVARS)
+            prog.append(["new", v, ov(), rng.choice(["map", "plain"])])
+            bound.add(v)
+        elif r < 0.16:
+            v = rng.randrange(NVARS)
+            prog.append(["handle", v, ov(), rng.choice(["pair", "map"])])
+            bound.add(v)
+        elif r < 0.30:
+            v = rng.randrange(NVARS)
+            prog.append(["lib", v, rng.choice(["cache", "logging"])])
+            bound.add(v)
+        elif r < 0.36:
+            if bound:
+                v = rng.randrange(NVARS)
+                prog.append(["handle_on", v, rng.choice(sorted(bound)), ov(), rng.choice(["pair", "map"])])
+                bound.add(v)
+        elif r < 0.39:
+            v = rng.randrange(NVARS)
+            prog.append(["cur", v])
+            bound.add(v)
+        elif r < 0.56:
+            if bound and len(active) < 6:
+                v = rng.choice(active) if active and rng.random() < 0.3 else rng.choice(sorted(bound))
+                prog.append(["enter", v])
+                active.append(v)
+        elif r < 0.68:
+            if active:
+                active.pop()
+                prog.append([rng.choice(["exit", "exit", "exitexc"])])
+        elif r < 0.73:
+            prog.append(["default", rng.choice(TYPES), rng.choice(tags), rng.choice(["decorator", "function"])])
+        elif r < 0.80:
+            prog.append(["inherit_run", rng.choice(alltypes)])
+        elif helper_threads and r < 0.88:
+            prog.append(["thread_run", rng.choice(alltypes)])
+        else:
+            prog.append(["run", rng.choice(alltypes)])
+    while active:
+        active.pop()
+        prog.append([rng.choice(["exit", "exitexc"])])
+    prog += audit_suffix(bound, alltypes)
+    if helper_threads:
+        prog += [["thread_run", t] for t in TYPES]
+        return {"existing": True, "lib": True, "pre": pre, "prog": prog, "oracle_only": True}
+    return {"existing": True, "lib": True, "pre": pre, "prog": prog}
+
+
+def gen_repeat_derive(rng, tags=TAGS):
+    """Directed family: the SAME way of deriving a runtime used several times in one history, each time
+    while a DIFFERENT runtime is current (top level, inside a block overriding a user type, inside a block
+    overriding a library type, inside a fresh Runtime(), inside a previously derived runtime, two blocks
+    deep); every derived runtime is entered and every request type asked in it (it must hold the handlers
+    of the runtime it was derived from plus its overrides), also from a helper thread that inherits."""
+    alltypes = TYPES + LIB_TYPES
+    kind = rng.choice(["cache", "logging", "cache", "logging", "handle-pair", "handle-map", "handle-empty", "cur-handle"])
+    fixed_ov = [[rng.choice(alltypes), rng.choice(tags)]]
+    if kind == "handle-map":
+        fixed_ov = [[t, rng.choice(tags)] for t in rng.sample(alltypes, 2)]
+    existing = rng.random() < 0.7
+    prog, bound = [], set()
+    nextvar = [0]
+
+    def fresh():
+        v = nextvar[0] % NVARS
+        nextvar[0] += 1
+        bound.add(v)
+        return v
+
+    def derive_op(v):
+        if kind in ("cache", "logging"):
+            return [["lib", v, kind]]
+        if kind == "handle-pair":
+            return [["handle", v, fixed_ov, "pair"]]
+        if kind == "handle-map":
+            return [["handle", v, fixed_ov, "map"]]
+        if kind == "handle-empty":
+            return [["handle", v, [], "map"]]
+        c = NVARS + 1                                  # current_runtime().handle(...)
+        return [["cur", c], ["handle_on", v, c, fixed_ov, rng.choice(["pair", "map"])]]
+
+    def probe():
+        ts = list(alltypes)
+        rng.shuffle(ts)
+        ops = [["run", t] for t in ts[:rng.randint(3, 6)]]
+        if existing and rng.random() < 0.4:
+            ops.append(["inherit_run", rng.choice(alltypes)])
+        return ops
+
+    contexts = ["top", "user-override", "lib-override", "fresh-runtime", "in-derived", "two-deep"]
+    rng.shuffle(contexts)
+    last = None
+    for cx in contexts[:rng.randint(2, 4)]:
+        opened = 0
+        if cx == "user-override":
+            a = fresh()
+            prog += [["handle", a, [[rng.choice(TYPES), rng.choice(tags)]], rng.choice(["pair", "map"])], ["enter", a]]
+            opened = 1
+        elif cx == "lib-override":
+            a = fresh()
+            prog += [["handle", a, [[rng.choice(LIB_TYPES), rng.choice(tags)]], rng.choice(["pair", "map"])], ["enter", a]]
+            opened = 1
+        elif cx == "fresh-runtime":
+            a = fresh()
+            prog += [["new", a, [[rng.choice(alltypes), rng.choice(tags)]], "map"], ["enter", a]]
+            opened = 1
+        elif cx == "in-derived" and last is not None:
+            prog += [["enter", last]]
+            opened = 1
+        elif cx == "two-deep":
+            a, b = fresh(), fresh()
+            prog += [["handle", a, [[1, rng.choice(tags)]], "pair"], ["enter", a],
+                     ["handle", b, [[2, rng.choice(tags)], [rng.choice(LIB_TYPES), rng.choice(tags)]], "map"], ["enter", b]]
+            opened = 2
+        if rng.random() < 0.3:
+            prog.append(["default", rng.choice(TYPES), rng.choice(tags), rng.choice(["decorator", "function"])])
+        v = fresh()
+        prog += derive_op(v) + [["enter", v]] + probe()
+        if rng.random() < 0.4:                          # an override on top of the derived runtime, then back
+            w = fresh()
+            prog += [["handle", w, [[rng.choice(alltypes), rng.choice(tags)]], "pair"], ["enter", w]] + probe() + \
+                    [[rng.choice(["exit", "exitexc"])]] + probe()[:2]
+        prog += [[rng.choice(["exit", "exit", "exitexc"])]] + probe()[:2]
+        prog += [[rng.choice(["exit", "exitexc"])] for _ in range(opened)]
+        last = v
+    prog += audit_suffix({v for v in bound if v < NVARS}, alltypes)
+    return {"existing": existing, "lib": True, "pre": [], "prog": prog}
 
 
 EXH_ALPHABET = [
@@ -478,7 +765,8 @@ def features(sc):
     depth = maxd = 0
     active = []
     f = dict(reentry=False, exc_exit=False, late_default=False, served_in_block=False, on_demand=False,
-             derive_in_block=False)
+             derive_in_block=False, lib_deriver_repeated=False, inherit=False, helper_thread=False)
+    lib_ctx = {}
     created = bool(sc.get("existing"))
     have_rt = bool(sc.get("existing"))
     for op in prog:
@@ -504,10 +792,21 @@ def features(sc):
             elif not have_rt:
                 f["on_demand"] = True
             created = True
-        elif k in ("new", "handle", "handle_on", "cur"):
+        elif k in ("new", "handle", "handle_on", "cur", "lib"):
             created = True
             if depth and k != "new":
                 f["derive_in_block"] = True
+            if k == "lib":
+                ctx_now = tuple(active)
+                if any(c != ctx_now for c in lib_ctx.get(op[2], [])):
+                    f["lib_deriver_repeated"] = True      # same library deriver, another runtime current
+                lib_ctx.setdefault(op[2], []).append(ctx_now)
+        elif k == "thread_run":
+            f["helper_thread"] = True
+        elif k == "inherit_run":
+            f["inherit"] = True
+            if depth:
+                f["served_in_block"] = True
     f["max_depth"] = maxd
     return f
 
@@ -532,6 +831,37 @@ def run_batch(scenarios, chunk=400):
     with ctx.Pool(processes=min(16, os.cpu_count() or 4), maxtasksperchild=1) as pool:
         res = pool.map(_worker, chunks, chunksize=1)
     return [x for r in res for x in r]
+
+
+def in_child(fn):
+    """fn() (a JSON-able result) computed in a forked child of this process: nothing the computation leaves in
+    the library's module state (memo tables, registries, per-thread tables) stays in this process"""
+    rd, wr = os.pipe()
+    pid = os.fork()
+    if pid == 0:
+        code = 0
+        try:
+            os.close(rd)
+            data = json.dumps(fn()).encode()
+            with os.fdopen(wr, "wb") as fh:
+                fh.write(data)
+        except BaseException:  # noqa: BLE001
+            code = 1
+        finally:
+            os._exit(code)
+    os.close(wr)
+    with os.fdopen(rd, "rb") as fh:
+        data = fh.read()
+    os.waitpid(pid, 0)
+    return json.loads(data.decode()) if data else None
+
+
+def run_impl_isolated(sc):
+    """run_impl in a forked child of this process (which never runs a scenario itself): nothing an earlier
+    scenario left behind in the library's module state can leak into the observation, so a scenario that
+    fails here fails in the fresh interpreter of `./check --replay` too"""
+    out = in_child(lambda: run_impl(sc))
+    return out if out is not None else "harness-exc:child"
 
 
 def first_diff(a, b, prog):
@@ -582,7 +912,8 @@ def eval_model(ctx, streams, budget=2000):
     out = [None] * len(streams)
     groups = {}
     for i, (name, sc) in enumerate(streams):
-        groups.setdefault(name, []).append(i)
+        if not sc.get("oracle_only"):
+            groups.setdefault(name, []).append(i)
     for name, idx in groups.items():
         longest = max(len(streams[i][1]["prog"]) for i in idx)
         shard = max(5, budget // max(1, longest))
@@ -603,6 +934,7 @@ def run(ctx):
     maxlen = 25 if quick else 60
     exh_len = 4 if quick else 5
     n_falsy = 300 if quick else 3000
+    n_lib = 600 if quick else 6000
 
     streams = []          # (stream name, scenario)
     for sc in CORPUS:
@@ -615,19 +947,38 @@ def run(ctx):
         streams.append(("falsy-handlers", gen_random(rng, min(maxlen, 25), tags=TAGS + (FALSY,))))
     for _ in range(n_falsy):
         streams.append(("raising-handlers", dict(gen_random(rng, min(maxlen, 25)), raising=True)))
+    n_main = len(streams)
+    # library-provided derivers, library request types, inherit (each scenario in a process of its own)
+    for _ in range(n_lib):
+        streams.append(("repeat-derive", gen_repeat_derive(rng)))
+    for _ in range(n_lib):
+        streams.append(("library-derivers", gen_lib_random(rng, min(maxlen, 25))))
+    for _ in range(n_lib // 3):
+        streams.append(("library-derivers-falsy", gen_lib_random(rng, min(maxlen, 25), tags=TAGS + (FALSY,))))
+    for _ in range(n_lib // 3):
+        streams.append(("library-derivers-raising", dict(gen_lib_random(rng, min(maxlen, 25)), raising=True)))
+    # short-lived helper threads next to the history's own thread (oracle only: the model has one thread)
+    for _ in range(n_lib // 2):
+        streams.append(("helper-threads", gen_lib_random(rng, min(maxlen, 25), helper_threads=True)))
     scenarios = [sc for _, sc in streams]
 
-    obs = run_batch(scenarios)
+    obs = run_batch(scenarios[:n_main]) + run_batch(scenarios[n_main:], chunk=1)
     model = eval_model(ctx, streams)
 
     mism, viol = [], []
     n_mism = n_viol = 0
+    per_stream = {}
     dist = {"streams": {}, "ops": {}, "answers": {"served": 0, "TypeError": 0}, "max_depth": {},
             "features": {}, "start": {"fresh": 0, "existing": 0}}
     distinct = set()
     ops_total = 0
+    n_modelled = 0
     for (stream, sc), (impl, orc), ml in zip(streams, obs, model):
-        conc, spec = split_model(ml)
+        if ml is None:      # oracle-only stream: nothing to say for the model
+            conc, spec = impl, orc
+        else:
+            conc, spec = split_model(ml)
+            n_modelled += 1
         dist["streams"][stream] = dist["streams"].get(stream, 0) + 1
         dist["start"]["existing" if sc.get("existing") else "fresh"] += 1
         for op in sc["prog"]:
@@ -660,18 +1011,37 @@ def run(ctx):
         # 3. the property itself on the implementation
         if impl != orc:
             n_viol += 1
-            if len(viol) < 50:
+            per_stream[stream] = per_stream.get(stream, 0) + 1
+            if per_stream[stream] <= 15:        # (a few of every stream: the later streams hold the self-contained histories)
                 viol.append(dict(desc="implementation's answers differ from the stack oracle (property text)",
                                  stream=stream, scenario=sc, impl=impl, oracle=orc,
                                  first_difference=first_diff(impl, orc, sc["prog"]), finding=None))
 
     # shrink the first new violations to a short failing history
+    # (every candidate runs in a forked child: what an earlier scenario left in the library's module state
+    # must not decide; histories that fail on their own come first)
     new = [v for v in viol if v["finding"] is None]
-    new.sort(key=lambda v: len(v["scenario"]["prog"]))
+    for v in new:
+        v["fails_in_fresh_process"] = run_impl_isolated(v["scenario"]) != v["oracle"]
+    new.sort(key=lambda v: (not v["fails_in_fresh_process"], len(v["scenario"]["prog"])))
     for v in new[:5]:
-        small = shrink(v["scenario"], lambda c: run_impl(c) != run_oracle(c))
+        # fast: the whole greedy shrink inside ONE child (its candidates run one after the other in that process)
+        small = in_child(lambda: shrink(v["scenario"], lambda c: run_impl(c) != run_oracle(c))) or v["scenario"]
+        rerun = run_impl_isolated
+        if rerun(small) == run_oracle(small):
+            if v["fails_in_fresh_process"]:
+                # that minimum leaned on what its predecessors left in the process: shrink again, every candidate on its own
+                small = shrink(v["scenario"], lambda c: run_impl_isolated(c) != run_oracle(c))
+            else:
+                # fails only after other histories ran in the same process: report the history as found, with the
+                # observation of the batch run
+                small = None
+        if small is None:
+            v["note"] = "observed in a batch of histories run one after the other in one process; the history alone, in a fresh process, agrees with the oracle"
+            v["history"] = [" ".join(map(str, op)) for op in v["scenario"]["prog"]]
+            continue
         v["scenario"] = small
-        v["impl"], v["oracle"] = run_impl(small), run_oracle(small)
+        v["impl"], v["oracle"] = rerun(small), run_oracle(small)
         v["first_difference"] = first_diff(v["impl"], v["oracle"], small["prog"])
         v["history"] = [" ".join(map(str, op)) for op in small["prog"]]
     viol = new[:5]
@@ -688,7 +1058,7 @@ def run(ctx):
                 "least one of: nesting depth >= 2, re-entry of a runtime that is active, a block left by exception, a default "
                 "registered after a runtime exists. Distinct by hash of the scenario.",
         "samples": samples,
-        "traces_validated_against_impl": len(scenarios),
+        "traces_validated_against_impl": n_modelled,
         "correspondence_mismatches": mism,
         "violations": viol,
         "known": [],
@@ -723,8 +1093,11 @@ def replay(ctx, payload):
         return True, {"note": "payload names no scenario (a proof obligation or the build broke); re-run the check",
                       "payload": payload}
     impl, orc = run_impl(sc), run_oracle(sc)
-    ml = ctx.coq_eval("Replay_C14", REQUIRES, PRELUDE, [coq_scenario(sc)])[0]
-    conc, spec = split_model(ml)
+    if any(op[0] == "thread_run" for op in sc["prog"]):     # helper threads: outside the one-thread model
+        conc, spec = impl, orc
+    else:
+        ml = ctx.coq_eval("Replay_C14", REQUIRES, PRELUDE, [coq_scenario(sc)])[0]
+        conc, spec = split_model(ml)
     still = impl != orc or impl != conc or orc != spec
     return still, {"history": [" ".join(map(str, op)) for op in sc["prog"]], "existing_runtime": sc.get("existing"),
                    "pre_defaults": sc.get("pre"), "implementation": impl, "oracle": orc, "code_model": conc,
